@@ -219,10 +219,15 @@ FORBIDDEN = re.compile(r"\b(Admitted|admit|Axiom|Axioms|Parameter|Parameters|Con
                        r"Admit\s+Obligations|type-in-type|impredicative-set)\b")
 
 
-def grep_forbidden():
-    """No Admitted/admit/Axiom/... anywhere in the development (comments included, to be blunt)."""
+def grep_forbidden(prefixes=None):
+    """No Admitted/admit/Axiom/... anywhere in the development (comments included, to be blunt).
+    With `prefixes` (e.g. ["C08"]) only the shared files and the files of those properties are
+    searched, so that a property's check answers for its own files (and what it imports)."""
     hits = []
-    for f in coq_files() + ["Extract.v.tmpl"]:
+    files = coq_files()
+    if prefixes:
+        files = [f for f in files if not re.match(r"theories/C\d\d_", f) or any(os.path.basename(f).startswith(p + "_") for p in prefixes)]
+    for f in files + ["Extract.v.tmpl"]:
         p = os.path.join(COQ, f)
         for i, l in enumerate(open(p), 1):
             # Variable/Hypothesis outside a section are checked by Print Assumptions instead.
@@ -600,7 +605,8 @@ def run_check(prop, tier, seed, replay=None):
     regen_consts(ctx)
 
     # 1. Coq: full build, forbidden-vernacular grep, property theorems + assumptions
-    forb = grep_forbidden()
+    used = sorted({m.split("_")[0] for m in list(prop.coq_files) + list(prop.models) if re.match(r"C\d\d_", m)} | {prop.id})
+    forb = grep_forbidden(used)
     coq_ok, coq_log = build_coq(files=list(prop.coq_files) + list(prop.models) + ([prop.props] if prop.props else []))
     props_ok, theorems, assumptions_out = (False, [], "")
     broken = [f for f in prop.coq_files if not vo_ok(f)]
